@@ -12,18 +12,18 @@ S0 = '''## 0. Summary table (as built)
 
 | id  | claimed | deciding step (units under `/verif/units`) | level | genuine defects the contracts exposed on the pinned tree |
 |-----|---------|---------------------------------------------|-------|----------------------------------------------------------|
-| C01 | yes | Verus: `c01_reader` (Reader + the whole real lexer: tokens tile the text), `c01_parser` (driver + Marker API + `parse_chunk` loop: every token emitted once, in order), `c01_green` (tree builders hand exactly those ranges to rowan, for every event list); bounded search on the real parser when a unit is undecided | proof (doc-comment re-lexing, grammar frame, rowan assumed) | NUL treated as end of input (fixed `69919c1`); `finish()` kept only the first top-level element (fixed `1343370`) |
+| C01 | yes | Verus: `c01_compose` (machine-checked glue: `theorem_lossless` over the interface predicates of the three units), `c01_reader` (Reader + the whole real lexer: tokens tile the text), `c01_parser` (driver + Marker API + `parse_chunk` loop: every token emitted once, in order), `c01_green` (tree builders hand exactly those ranges to rowan, for every event list); bounded search on the real parser when a unit is undecided | proof (doc-comment re-lexing, grammar frame, rowan assumed) | NUL treated as end of input (fixed `69919c1`); `finish()` kept only the first top-level element (fixed `1343370`) |
 | C02 | yes, reduced scope | same three units: panic-freedom + `decreases` of lexer, driver, marker, builders | proof for those stages; recursion depth / grammar panics **not covered** | latent: `LuaParser::bump` at end of input indexes out of bounds (API-level, unreachable through the grammar; recorded, not fixed) |
-| C09 | yes | Verus: `c09_clear` (generated from the struct definitions: `new`/`clear` of all 14 indexes + `DbIndex::clear` establish `fresh_*`), `c09_reindex` (`reindex` = clear, then update with **every** Vfs file id) | proof | `LuaMemberIndex::clear` kept `member_current_owner` (fixed `01e21e6`) |
-| C10 | yes, partial | Verus: `c10_remove` (`remove` of decl / dependency / diagnostic / flow / signature / property indexes, per-file maps of the reference index, `DbIndex::remove` delegation) | proof for those indexes; module/member/type/operator/metatable/global **not covered** | — |
-| C19 | yes | Verus `c19_match` (+ Kani on the compiled real crate, thorough tier and for counterexamples), scope slices of `diagnostic_tags.rs` in `c22_lineindex`, `DiagnosticIndex::remove` in `c10_remove` | proof | touching ranges matched (fixed `65c9cea`) |
-| C20 | yes | Verus `c20_config` (precedence chain, `add_diagnostic`, `get_severity`, `diagnose_file`), `DiagnosticIndex::remove` in `c10_remove` | proof | — |
+| C09 | yes | Verus: `c09_clear` (generated from the struct definitions: `new`/`clear` of all 14 indexes + `DbIndex::clear` establish `fresh_*`), `c09_reindex` (`reindex` = clear, then update with **every** Vfs file id), `c22_vfs` (a re-submitted text is always re-parsed under the current configuration) | proof | `LuaMemberIndex::clear` kept `member_current_owner` (fixed `01e21e6`) |
+| C10 | yes, partial | Verus: `c10_remove` (`remove` of decl / dependency / diagnostic / flow / signature / property indexes, per-file maps of the reference index, `DbIndex::remove` delegation), `c22_vfs` (`Vfs::remove_file`, withdrawal of a text, a submitted uri stays addressable) | proof for those indexes and the Vfs; module/member/type/operator/metatable/global **not covered** | documents without a file path leaked a copy per edit and could not be removed (fixed `455b3ae`) |
+| C19 | yes | Verus `c19_match` (+ Kani on the compiled real crate, thorough tier and for counterexamples), scope slices of `diagnostic_tags.rs` in `c22_lineindex`, code-list handling of the four `analyze_diagnostic_*` functions in `c20_inputs`, `DiagnosticIndex::remove` in `c10_remove`; bounded search `replay/c19` when undecided | proof | touching ranges matched (fixed `65c9cea`) |
+| C20 | yes | Verus `c20_config` (precedence chain, `add_diagnostic`, `get_severity`, `diagnose_file`), `c20_inputs` (`LuaDiagnosticConfig::new` builds exactly the configured sets/maps), `DiagnosticIndex::remove` in `c10_remove` | proof | — |
 | C21 | yes, partial | labels `C21.*` in `c22_lineindex` (`to_lsp_range`, `translate_range`) and `c20_config` (`add_diagnostic` fields, "enabled ⇒ reported", parse-error loop of `SyntaxErrorChecker::check`) | proof for those clauses | — |
-| C22 | yes | Verus `c22_lineindex` (all of `LineIndex`, the `LuaDocument` conversions, `lemma_round_trip`), Kani cross-check of the text-size shim (thorough), bounded search on the real code when undecided | proof | `get_offset` did not clamp to the line (fixed `c8fa1d8`) |
+| C22 | yes | Verus `c22_lineindex` (all of `LineIndex`, the `LuaDocument` conversions, `lemma_round_trip`), `c22_vfs` (the Vfs pairs every text with the LineIndex parsed from it), Kani cross-check of the text-size shim (thorough), bounded search on the real code when undecided | proof | `get_offset` did not clamp to the line (fixed `c8fa1d8`) |
 | C23 | yes | `c23_encoding` = `c22_lineindex` re-instantiated with UTF-16 column weight and LSP line terminators; known findings **pinned** by `c22_lineindex` | proof of "exactly the two recorded deviations" | columns count scalar values; lone `\\r` is no line break — **open known findings** (§7) |
 | C25 | yes, narrow | labels `C25.*` in `c22_lineindex` + unchecked inventory of `token_at_offset` call sites | proof of the offset-in-document lemma | (the unguarded call sites are made safe by the C22 repair) |
 | C26 | yes, partial | Verus `c26_semantic_tokens` (legend indices, modifier bits, delta encoding, multi-line split) | proof for the semantic-token sentence | — |
-| C31 | yes, narrow | Verus `c31_path` (slice of `pre_process_path`) | proof of the path-expansion clause | `&path[2..]` after `~` panicked / ate a character (fixed `0e27e3d`) |
+| C31 | yes, narrow | Verus `c31_path` (slice of `pre_process_path`); bounded search `replay/c31` over generated path strings and config files (thorough tier / when undecided) | proof of the path-expansion clause; flatten / Lua loader only by the bounded search | `&path[2..]` after `~` panicked / ate a character (fixed `0e27e3d`); a key that is both a value and a prefix panicked the loader (fixed `05cb49f`) |
 | C36 | yes, partial | Verus `c36_exit` (slices of `output_result`, `DiagnosticSeverityFilter::allows`) | proof for the exit-status / filter sentences | — |
 | C38 | yes, static half | rustc trait solver on a workspace copy with every `unsafe impl Send/Sync` stripped (`vc/c38.py`) | proof (type level) | `LuaAstPtr<T>` was `Send + Sync` only by `unsafe impl` (fixed `712304c`) |
 | C03–C08, C11–C18, C24, C27–C30, C32–C35, C37, C39–C41 | n/a | — | — | see §6 |
@@ -47,6 +47,8 @@ record suppresses nothing.
 | C01 | `Reader::bump/is_eof … [C01.reader.*]` | `replay/c01`: `"a\\0b"` → tree text `"a"` | `69919c1` end of input decided by position |
 | C01 | `LuaGreenNodeBuilder::finish … [C01.finish.emits-all-tokens]` | `"x--region\\n;"`, `"{;do"`, `"{,end"` lose their suffix (7746 of 400 000 soup inputs) | `1343370` wrap all top-level elements in the `Chunk` root |
 | C31 | slicing precondition of `&path[2..]` in the `~` branch | `replay/c31`: `workspaceRoots ["~"]`, `["~é"]` panic in `Emmyrc::pre_process_emmyrc`; `"~foo"` became `home/oo` | `0e27e3d` skip `~` and separators |
+| C31 | `bounded-search:replay/c31` (thorough tier; the flatten code is outside the functions under contract) | `.luarc.json` `{"runtime.version": "Lua5.1", "runtime": 3}` merged after a valid `.emmyrc.json`: `load_configs` panics (`IndexMut` on a non-object / `expect("always an object")`, hash-order dependent) | `05cb49f` the nested form wins, the scalar is dropped |
+| C10 | `Vfs::set_file_content / file_id … [C10.vfs.submitted-uri-resolves-to-its-id]` | `replay/c10_vfs`: `untitled:Untitled-1` opened, changed, closed: two analysed copies remain, `remove_file_by_uri` returns `None` | `455b3ae` one id per pathless uri (kept in `remote_file_id_map`), `get_file_id` resolves it, `remove_file` releases it |
 
 **Open known findings (recorded, not repaired)** — C23, both pinned by unit `c22_lineindex` (which proves that the code
 does exactly what the finding says, so that any *other* deviation is still reported):
@@ -89,6 +91,13 @@ S10 = '''## 10. Changes to the machinery (log)
 * **C09** got a second unit (`c09_reindex`) after a seeded change showed that `reindex` itself can pick the wrong file
   list; **C19/C20** include `DiagnosticIndex::remove` (from `c10_remove`) after seeded changes showed that stale per-file
   enable/disable sets survive re-indexing otherwise.
+* **Cross-unit assumptions were discharged by new units**: `c22_vfs` proves the `LuaDocument` invariant that `c22_lineindex`
+  assumed (text paired with the LineIndex parsed from it) and exposed the pathless-uri leak; `c20_inputs` proves that
+  `LuaDiagnosticConfig::new` builds exactly the configured sets (previously assumed by `c20_config`) and the code-list
+  handling of the suppression comments; `c01_compose` includes the interface predicate files of the three C01 units (the same
+  text) and proves `theorem_lossless`, so the implications between the links are machine-checked.
+* **Thorough tier** additionally runs every bounded witness search even when all obligations are discharged; results are
+  listed under `coverage.bounded`, never counted as discharged. This is how the flatten-collision panic (C31) was found.
 * **C23** became a claimed check with *pinned* known findings instead of a second contract set inside the C22 unit.
 * **False alarms found and corrected in the machinery:** (1) the first precondition written for `translate_range`
   quantified over *all* documents and was nearly contradictory — replaced by a precondition on the document of that file
